@@ -109,11 +109,21 @@ theorem todo_exempt (n : String) (s : Service) (hs : s.todo = some true) :
   rw [Grammar.yamlToken_iff] at e
   have hsorted : AMap.sorted [(n, s)] = [(n, s)] := by
     simp [AMap.sorted, AMap.keys, AMap.rawKeys, AMap.get, List.eraseDups_cons]
-  unfold validateServices
+  unfold validateServices servicesStep
   simp only [hsorted, List.foldl_cons, List.foldl_nil, hs, Option.getD_some, ↓reduceIte]
   rw [pfx_nil]
   simp only [List.nil_append, pfx_nil]
   cases ha : Re.accepts Rx.yamlToken n.toList <;> simp_all [rx]
+
+/-- **accepted ⇒ no two live services claim one getter**, and every live service passed its attribute checks -/
+theorem getters_unique (i : Input) (h : validateServices i = []) :
+    (liveGetters (AMap.sorted i.services)).Nodup ∧
+    ∀ ns ∈ AMap.sorted i.services, ns.2.todo.getD false = false → serviceAttrs ns.2 = [] := by
+  have hfold : ((AMap.sorted i.services).foldl servicesStep ([], [])).1 = [] := by
+    unfold validateServices at h
+    exact (pfx_nil _ _).mp h
+  obtain ⟨hnd, _, hattrs⟩ := fold_unique _ _ hfold
+  exact ⟨hnd, hattrs⟩
 
 -- the documented examples are accepted / the documented non-examples rejected
 example : Grammar.yamlToken ['m','y','.','p','a','r','a','m','-','1','_','x'] = true := by decide
